@@ -102,6 +102,11 @@ func (t *VerifiedMacaroon) Expiration() time.Time {
 	ret := maxTime
 
 	for _, vw := range macaroon.GetCaveats[*macaroon.ValidityWindow](t.Caveats) {
+		// time.Unix wraps around beyond maxTime
+		if vw.NotAfter >= maxTime.Unix() {
+			continue
+		}
+
 		if na := time.Unix(vw.NotAfter, 0); na.Before(ret) {
 			ret = na
 		}
